@@ -3,6 +3,7 @@ import JominiModel.Proofs.BinTape
 import JominiModel.Proofs.BinTapeEq
 import JominiModel.Proofs.BinTapeWf
 import JominiModel.Proofs.BinTapeFaithful
+import JominiModel.Proofs.BinTapeTotal
 /-
 C03 — the binary tape mirrors the token stream; the fast paths are unobservable.
 Only property theorems live here; helper lemmas are in `Proofs/BinTape*.lean`.
@@ -116,6 +117,20 @@ theorem C03_delimited_links (opt : Bool) (data : Bytes) (toks : Tape) (h : parse
 
 example : ∃ toks, parse true [0x82, 0x2d, 0x01, 0x00, 0x03, 0x00, 0x0c, 0x00, 5, 0, 0, 0, 0x04, 0x00] = .ok toks ∧
     toks = [.token 0x2d82, .array 3, .i32 5, .end_ 1] := ⟨_, rfl, rfl⟩
+
+/-- **Every input has a defined outcome**: both parsers return a tape, `eof` or `syntax` — never the
+model's `ub` / `panic` / `fuel` outcomes (all unchecked accesses, the `transmute` and the
+`mixed_insert` guards hold; the loops end within `|data| + 1` iterations). -/
+theorem C03_total (opt : Bool) (data : Bytes) :
+    (∃ toks, parse opt data = .ok toks) ∨ parse opt data = .error .eof ∨ parse opt data = .error .syntax := by
+  have h1 := C05_bintape_no_ub_panic opt data
+  have h2 := (C05_bintape_fuel_enough opt data).1
+  cases h : parse opt data with
+  | ok t => exact Or.inl ⟨t, rfl⟩
+  | error e => cases e <;> simp_all
+
+example : parse true [0x04, 0x00] = .error .syntax ∧ parse true [0x82] = .ok [] ∧
+    parse true [0x82, 0x2d] = .error .eof := ⟨rfl, rfl, rfl⟩
 
 /- **Faithfulness, full statement (not yet proved beyond the flat fragment):**
 
